@@ -28,6 +28,7 @@ SCOPE_MODULES = [D + m for m in ('gaussian', 'gmm', 'complex_angular_central_gau
 AXISLESS_OK = {
     (D + 'cacgmm::CACGMM._log_likelihood', 'numpy.sum'): 'documented scalar total over all independent problems',
 }
+EXTRA_GUARD_SCOPE = ()
 NONNEG_AXIS_OK = {
     ('pb_bss.utils::labels_to_one_hot', 'numpy.moveaxis'): 'axis is a normalised parameter',
     ('pb_bss.utils::reshape', 'numpy.squeeze'): 'explicit operation string',
@@ -107,6 +108,25 @@ def check_axes(run, A):
                 continue
             run.check(not bad, 'R-ELL', f'{short}: {cname.split(".")[-1].split(":")[-1]}(axis={v}) counts from the right', fn.loc(t.node), '',
                       f'`{norm_stmt(t.node)}`: a non-negative axis addresses a leading (independent) axis as soon as one is present', construct=f'R-ELL::{fn.qual}::axis::{cname}')
+    # whole-array predicates (np.allclose / np.array_equal / np.array_equiv) are reductions over everything too: as the condition of a branch, an early `break` or
+    # `continue` that decides what is computed they couple the slices (e.g. an EM loop that stops when the posteriors of the WHOLE stack have settled)
+    for fn in scope(A) + [f for q_ in EXTRA_GUARD_SCOPE for f in [A.prog.func(q_)]]:
+        g = A.graphs.get(fn)
+        short = fn.qual.split('::')[1]
+        for e in g.events:
+            if e.kind != 'call' or not is_call_to(e.term, 'numpy.allclose', 'numpy.array_equal', 'numpy.array_equiv'):
+                continue
+            t = e.term
+            if not any(x.op in ('param', 'free', 'mu') for a_ in call_parts(t)[1] for x in data_terms(a_)):
+                continue
+            n += 1
+            guarded = [e2 for e2 in g.events if any(any(x is t for x in walk_terms(c, into_mu=False)) for c, _ in e2.guards)]
+            value_guard = [e2 for e2 in guarded if e2.kind not in ('raise', 'assert') and not (e2.kind == 'call' and is_call_to(e2.term, 'builtin.ValueError', 'builtin.AssertionError'))]
+            raising = [e2 for e2 in guarded if e2.kind == 'raise']
+            if value_guard and not (raising and len(raising) == len([e2 for e2 in guarded if e2.kind in ('raise',)]) and all(e2.kind in ('raise', 'call') for e2 in guarded)):
+                run.violation('R-ELL', f'{short}: {call_parts(t)[0].split(".")[-1]}() over everything decides a value', fn.loc(t.node),
+                              f'`{norm_stmt(t.node)[:90]}` compares whole arrays and selects what is computed (branch / early exit): a slice of a stack is then handled according to '
+                              f'the content of the other slices', construct=f'R-ELL::{fn.qual}::axisless-guard::{call_parts(t)[0]}')
     run.floor('literal-axis / axis-less reductions examined', n, 25)
     # the same for axis LENGTHS: x.shape[k] with k >= 0 (or the leading names of `K, *rest = x.shape`) reads a leading, independent axis as soon as one is present
     from ..walk import shape_dim
